@@ -16,6 +16,7 @@
 #include <vector>
 
 namespace scn {
+using vf::tracked;
 
 inline std::string sv_text(uint64_t cn, int k) { return "text-" + std::to_string(cn) + "-" + std::to_string(k) + "-long enough to be kept on the heap and not in the small-string buffer"; }
 inline bool sv_intact(const std::string &s, const std::string &want) { return s == want; }
@@ -110,6 +111,50 @@ inline void shared_future_string_values(const vf::opts &o, vf::report &R, uint64
         }
         R.cases++;
         if (!err.empty()) { R.violation("monitor:payload|shared_future_string_values", err, vf::jobj().kv("case", (unsigned long long)cn).kv("seed", (unsigned long long)o.seed).kv("desc", desc).str()); continue; }
+        R.nontrivial_cases++; R.sig(desc);
+    }
+}
+
+// ---- shared_future<T> / future<T> whose result comes from an operation returning future<T&> (allowed: ReturnsFuture accepts the reference
+// form; the result then REFERS to the resolver's object). All copies observe that one object; nothing is copied, and releasing the
+// shared state must not destroy anything (the object belongs to the resolver).
+inline cocls::async<void> sv_ref_waiter(cocls::shared_future<tracked> sf, const tracked *&seen, uint64_t &id, int &released) {
+    try { tracked &v = co_await sf; seen = &v; id = v.ok() ? v.id : 0xBAD; } catch (...) { id = 0xE; }
+    released++;
+}
+inline void shared_future_reference_source(const vf::opts &o, vf::report &R, uint64_t cases) {
+    vf::rng master(vf::mix(o.seed, 0x57a5));
+    for (uint64_t cn = 0; cn < cases && R.nviol() < 5; cn++) {
+        vf::rng r(master.next());
+        vf::set_crash_ctx(R.prop.c_str(), "shared_future_reference_source", o.seed, cn);
+        std::string err, desc;
+        tracked obj((uint64_t)(5000 + cn % 1000));
+        const uint64_t want_id = obj.id;
+        long ctor0 = tracked::ctor.load(), dtor0 = tracked::dtor.load(), bad0 = tracked::bad.load();
+        {
+            std::optional<cocls::promise<tracked &>> rp;
+            bool early = r.chance(1, 3); // the operation is already complete when the shared_future is built
+            int outcome_kind = (int)r.below(4); // 0-1 value, 2 exception, 3 dropped
+            auto resolve = [&](cocls::promise<tracked &> &p) { if (outcome_kind <= 1) p(obj); else if (outcome_kind == 2) p(vf::make_exc(9)); else p(cocls::drop); };
+            cocls::shared_future<tracked> sf([&] { return cocls::future<tracked &>([&](cocls::promise<tracked &> p) { if (early) resolve(p); else rp.emplace(std::move(p)); }); });
+            int nw = 1 + (int)r.below(4), first = early ? 0 : (int)r.below((uint32_t)nw + 1);
+            std::vector<const tracked *> seen((size_t)nw, nullptr); std::vector<uint64_t> ids((size_t)nw, 0); std::vector<int> rel((size_t)nw, 0);
+            for (int i = 0; i < first; i++) sv_ref_waiter(sf, seen[(size_t)i], ids[(size_t)i], rel[(size_t)i]).detach();
+            if (!early) { resolve(*rp); rp.reset(); }
+            for (int i = first; i < nw; i++) sv_ref_waiter(sf, seen[(size_t)i], ids[(size_t)i], rel[(size_t)i]).detach();
+            desc = std::string("shared_future<counted> from an operation returning future<counted&>, ") + (early ? "already complete" : "completed later") + ", outcome " + (outcome_kind <= 1 ? "value" : outcome_kind == 2 ? "exception" : "dropped") + ", " + std::to_string(first) + " parked + " + std::to_string(nw - first) + " late awaiters";
+            for (int i = 0; i < nw && err.empty(); i++) {
+                if (rel[(size_t)i] != 1) err = "awaiter of a copy released " + std::to_string(rel[(size_t)i]) + " times";
+                else if (outcome_kind <= 1 && ids[(size_t)i] != want_id) err = "copy #" + std::to_string(i) + " observed a result that is not the resolver's object (id " + std::to_string(ids[(size_t)i]) + ", expected " + std::to_string(want_id) + ")";
+                else if (outcome_kind > 1 && ids[(size_t)i] != 0xE) err = "copy #" + std::to_string(i) + " observed a value although the operation ended with an exception / was dropped";
+            }
+            if (err.empty() && outcome_kind <= 1) { cocls::shared_future<tracked> c2 = sf; tracked &v = c2.value(); if (!v.ok() || v.id != want_id) err = "value() of a later copy is not the resolver's object"; }
+        } // every handle gone: the shared state is released
+        R.cases++;
+        if (err.empty() && !obj.ok()) err = "the resolver's object was damaged / destroyed by the shared state";
+        if (err.empty() && tracked::bad.load() != bad0) err = "something that is not a live object was destroyed when the shared state was released";
+        if (err.empty() && (tracked::ctor.load() != ctor0 || tracked::dtor.load() != dtor0)) err = "the shared state constructed / destroyed payload objects (" + std::to_string(tracked::ctor.load() - ctor0) + " / " + std::to_string(tracked::dtor.load() - dtor0) + ") although its result only refers to the resolver's object";
+        if (!err.empty()) { R.violation("monitor:payload|shared_future_reference_source", err, vf::jobj().kv("case", (unsigned long long)cn).kv("seed", (unsigned long long)o.seed).kv("desc", desc).str()); continue; }
         R.nontrivial_cases++; R.sig(desc);
     }
 }
